@@ -11,7 +11,7 @@ FINISH = dict(level="model_checking",
                    "hashing with the own candidate must fail); V: the ENABLE_THREADING build under 2..16 threads x up to "
                    "10^6 get/put, repeated process starts racing on the first hash, disjoint trees per thread, and a "
                    "ThreadSanitizer twin of the counter run; each run validated by TLC against the atomic outcome")
-ASF = ["nonatomic", "plain_store", "hash_own_candidate"]
+ASF = ["nonatomic", "plain_store", "hash_own_candidate", "put_check_then_act"]
 SEEDDEF = "-DOVERRIDE_GET_RANDOM_SEED='return vh_seed_candidate()'"
 
 
@@ -26,6 +26,7 @@ def run(ck):
                        "ThreadSanitizer observes the accesses of json_object_get/put in the production-flag threaded build (-DNDEBUG); the plain read of the published seed in lh_char_hash is not judged (the property claims data-race freedom for the reference counts)",
                        "each thread's seed candidate is made distinct through the upstream OVERRIDE_GET_RANDOM_SEED compile-time hook"]
     ck.mc("MCThreads", "C18_mc.cfg", workers=8, timeout=1200)
+    ck.mc("MCThreads", "C18_mc_last.cfg", workers=8, timeout=1200)      # the last references released concurrently
     for m in ASF:
         ck.mc_must_fail("MCThreads", "C18_asfound_%s.cfg" % m, workers=4, timeout=600)
     exe = vlib.build("thr", ["vhthr.c", "vhrt.c"], "vhthr", repo_cflags=SEEDDEF, objtag="-c18")
@@ -39,6 +40,9 @@ def run(ck):
         jobs.append((exe, ["seed", 2 + (i % 4) * 4 if i % 4 else 8], {}))
     for t in (4, 16):
         jobs.append((exe, ["disjoint", t, 40000 if thorough else 10000], {}))
+    for t in (2, 2, 3, 4, 8):
+        jobs.append((exe, ["lastrefs", t, 400000 if thorough else 40000], {}))
+    jobs.append((tsan, ["lastrefs", 2, 3000], {"TSAN_OPTIONS": "exitcode=66 halt_on_error=0"}))
     jobs.append((tsan, ["counter", 4, 50000 if thorough else 20000, 2], {"TSAN_OPTIONS": "exitcode=66 halt_on_error=0"}))
     jobs.append((tsan, ["counter", 8, 5000, 1], {"TSAN_OPTIONS": "exitcode=66 halt_on_error=0"}))
     tp = os.path.join(ck.dir, "v.ndjson")
